@@ -18,6 +18,7 @@ package js
 //@   fact forall i in 0..len(tmRuneRanges) :: 1 <= tmRuneRanges[i].defaultVal && tmRuneRanges[i].defaultVal < 67 && 0 <= tmRuneRanges[i].lo && tmRuneRanges[i].lo < tmRuneRanges[i].hi
 //@   fact forall i in 0..len(tmRuneRanges) :: forall j in 0..len(tmRuneRanges[i].val) :: 1 <= tmRuneRanges[i].val[j] && tmRuneRanges[i].val[j] < 67
 //@   fact forall i in 0..len(tmRuneRanges)-1 :: tmRuneRanges[i].hi <= tmRuneRanges[i+1].lo
+//@   fact forall i in 0..len(tmRuneRanges) :: forall j in i+1..len(tmRuneRanges) :: tmRuneRanges[i].hi <= tmRuneRanges[j].lo
 
 //@ table tmStateMap
 //@   fact len(tmStateMap) == 10
@@ -44,8 +45,12 @@ package js
 // mapRune: the class of a rune outside Latin-1, by binary search in tmRuneRanges; always a class.
 //@ func mapRune
 //@   ensures 1 <= result && result < 67
+//@   ensures forall i in 0..len(tmRuneRanges) :: (tmRuneRanges[i].lo <= c && c < tmRuneRanges[i].hi) ==> result == (c - tmRuneRanges[i].lo < len(tmRuneRanges[i].val) ? tmRuneRanges[i].val[c - tmRuneRanges[i].lo] : tmRuneRanges[i].defaultVal)
+//@   ensures (forall i in 0..len(tmRuneRanges) :: !(tmRuneRanges[i].lo <= c && c < tmRuneRanges[i].hi)) ==> result == 1
 //@   loop 1:
 //@     invariant 0 <= lo && lo <= hi && hi <= len(tmRuneRanges)
+//@     invariant forall k in 0..lo :: tmRuneRanges[k].hi <= c
+//@     invariant forall k in hi..len(tmRuneRanges) :: c < tmRuneRanges[k].lo
 //@     decreases hi - lo
 
 //@ pred wfWindow(l *Lexer) = 0 <= l.offset && l.offset <= l.scanOffset && l.scanOffset <= len(l.source) && (l.ch == -1 <==> l.offset == len(l.source)) && (l.offset == len(l.source) ==> l.scanOffset == l.offset) && (l.offset < len(l.source) ==> l.scanOffset > l.offset && l.scanOffset <= l.offset + 4 && 0 <= l.ch && l.ch <= 1114111)
